@@ -639,7 +639,9 @@ class SVG:
             SVGTraverseContext(
                 0,
                 self.svg_root,
-                "/svg[0]",
+                # the real tag: a document rooted at <g>, <defs>, ... is not an svg and
+                # must not slip through checkpicosvg's "/svg[0]" allowlist
+                f"/{strip_ns(self.svg_root.tag)}[0]",
                 Affine2D.identity(),
                 (),
                 _attrib_to_pass_on(_INHERITABLE_ATTRIB_DEFAULTS, self.svg_root),
